@@ -658,7 +658,7 @@ func (vc *FnVC) doPanic(x *ssa.Panic, st *State) {
 		}
 		allowed = or(cs...)
 	}
-	vc.oblige("safety", "panic-unreachable", allowed, vc.fnTags(), "explicit panic")
+	vc.oblige("safety", "panic-unreachable", allowed, vc.safetyTags(), "explicit panic")
 }
 
 func (vc *FnVC) doReturn(x *ssa.Return, st *State) {
